@@ -74,12 +74,13 @@ func (a *sessionAwareAdapter) cleaner() {
 			}
 		}
 
-		for i := len(a.packets) - 1; i >= 0; i-- {
-			packet := a.packets[i]
-			if packet.HasExpired(a.maxDisconnectDuration) {
-				a.packets = append(a.packets[:i], a.packets[i+1:]...)
-				break
-			}
+		// Packets are kept in emission order, so the expired ones are at the front.
+		expired := 0
+		for expired < len(a.packets) && a.packets[expired].HasExpired(a.maxDisconnectDuration) {
+			expired++
+		}
+		if expired > 0 {
+			a.packets = append([]*PersistedPacket(nil), a.packets[expired:]...)
 		}
 		a.mu.Unlock()
 	}
